@@ -230,7 +230,9 @@ def historicAttempt (a : Agent) (c : Cbd) (rid : Nat) : Agent × Option Flight :
   if outOfWindow a.now c.sec a.window then ({ diskErase a c.id with dropped := a.dropped ++ [c.sec], oow := a.oow + 1 }, none)
   else if !c.mem && !a.disk then (a, none)
   else match chooseReplica a c.sec with
-    | none => (a, none)         -- the real sender sleeps 10 s and retries; generators avoid this
+    | none => (a, some { rid := rid, cbd := { c with mem := true }, historic := true, replica := 3, spare := false })
+      -- no live replica: the real sender sleeps 10 s and runs the loop again. Modelled as a request to a replica that does
+      -- not exist: when it is "received" (the timer fires) the sender continues as after a connection error
     | some (r, sp) => (a, some { rid := rid, cbd := { c with mem := true }, historic := true, replica := r, spare := sp })
 
 def reqOf (f : Flight) : Req := { rid := f.rid, sec := f.cbd.sec, historic := f.historic, spare := f.spare, replica := f.replica }
@@ -284,6 +286,12 @@ def aggDecide (historic : Bool) (t oldest newest w k : Nat) : Decision :=
     else .joinRecent (rounded - oldest)
 
 def park (b : Bucket) (rid sec : Nat) : Bucket := { b with reqs := b.reqs ++ [(rid, sec)], secs := b.secs ++ [sec], joined := b.joined + 1 }
+
+/-- recentBuckets[i] gets the request -/
+def parkAt : List Bucket → Nat → Nat → Nat → List Bucket
+  | [], _, _, _ => []
+  | b :: bs, 0, rid, sec => park b rid sec :: bs
+  | b :: bs, i + 1, rid, sec => b :: parkAt bs i rid sec
 
 def parkHistoric : List Bucket → Nat → Nat → List Bucket
   | [], rid, sec => [park (mkBucket sec) rid sec]
@@ -384,15 +392,19 @@ def setAgg (s : State) (r : Nat) (g : Agg) : State := { s with aggs := s.aggs.se
 def launch (s : State) (a : Agent) (f : Flight) : State × List Ev :=
   ({ s with ag := { a with flights := a.flights ++ [f] }, reqs := s.reqs ++ [reqOf f], nextRid := s.nextRid + 1 }, [.req (reqOf f)])
 
+def addFlushed (s : State) (t : Nat) : State := { s with flushed := s.flushed ++ [t] }
+
+/-- sendRecent for descriptor c of second t (after the optional save-before-send) -/
+def recentSend (s : State) (a : Agent) (c : Cbd) (t : Nat) : State × List Ev :=
+  if tooOldForRecent a t then ({ s with ag := toHistoric a c }, [.done])
+  else match chooseReplica a t with
+    | none => ({ s with ag := toHistoric a c }, [.done])
+    | some (r, sp) => launch s a { rid := s.nextRid, cbd := c, historic := false, replica := r, spare := sp }
+
 /-- goSendRecent loop body up to the rpc -/
 def stepRecent (s : State) (t : Nat) : State × List Ev :=
-  let s := { s with flushed := s.flushed ++ [t] }
-  let c0 : Cbd := { sec := t, id := 0, mem := true }
-  let p := if s.ag.saveFirst then diskPut s.ag c0 else (s.ag, c0)
-  if tooOldForRecent p.1 t then ({ s with ag := toHistoric p.1 p.2 }, [.done])
-  else match chooseReplica p.1 t with
-    | none => ({ s with ag := toHistoric p.1 p.2 }, [.done])
-    | some (r, sp) => launch s p.1 { rid := s.nextRid, cbd := p.2, historic := false, replica := r, spare := sp }
+  if s.ag.saveFirst then recentSend (addFlushed s t) (diskPut s.ag ⟨t, 0, true⟩).1 (diskPut s.ag ⟨t, 0, true⟩).2 t
+  else recentSend (addFlushed s t) s.ag ⟨t, 0, true⟩ t
 
 /-- sendHistoric: one loop iteration -/
 def stepHistoricAttempt (s : State) (a : Agent) (c : Cbd) : State × List Ev :=
@@ -416,29 +428,36 @@ def unparkBucket (b : Bucket) (rid : Nat) : Bucket := { b with reqs := b.reqs.fi
 def unpark (g : Agg) (rid : Nat) : Agg :=
   { g with recent := g.recent.map (unparkBucket · rid), historic := g.historic.map (unparkBucket · rid) }
 
+/-- nobody listens (replica down; or the "replica" of a sender that found no live replica: its 10 s timer fires):
+the sender continues as after a connection error -/
+def recvRefused (s : State) (rid : Nat) : State × List Ev :=
+  match findFlight s.ag rid with
+  | none => (s, [.connErr])
+  | some f => let r := agentContinue s f true false; (r.1, .connErr :: r.2)
+
+/-- handleSendSourceBucket on replica q.replica (state g) -/
+def recvHandle (s : State) (q : Req) (g : Agg) : State × List Ev :=
+  match g.recent.head?, g.recent.getLast? with
+  | some ob, some nb =>
+    match aggDecide q.historic q.sec ob.time nb.time s.aggWindow q.replica with
+    | .answer d why =>
+      let a : Resp := { rid := q.rid, sec := q.sec, discard := d, err := false, why := why }
+      ({ s with resps := s.resps ++ [a], rejected := if d then s.rejected ++ [q.sec] else s.rejected }, [.answer a])
+    | .joinRecent i =>
+      (setAgg s q.replica { g with recent := parkAt g.recent i q.rid q.sec }, [.parked true (ob.time + i)])
+    | .joinHistoric =>
+      (setAgg s q.replica { g with historic := parkHistoric g.historic q.rid q.sec }, [.parked false q.sec])
+  | _, _ => (s, [.none])
+
+def dropReq (s : State) (rid : Nat) : State := { s with reqs := s.reqs.filter (fun x => x.rid != rid) }
+
 def stepRecv (s : State) (rid : Nat) : State × List Ev :=
   match findReq s rid with
   | none => (s, [.none])
   | some q =>
-    let s := { s with reqs := s.reqs.filter (fun x => x.rid != rid) }
-    match s.aggs[q.replica]? with
-    | none => (s, [.none])
-    | some g =>
-      if !g.up then
-        match findFlight s.ag rid with
-        | none => (s, [.connErr])
-        | some f => let r := agentContinue s f true false; (r.1, .connErr :: r.2)
-      else match g.recent.head?, g.recent.getLast? with
-        | some ob, some nb =>
-          match aggDecide q.historic q.sec ob.time nb.time s.aggWindow q.replica with
-          | .answer d why =>
-            let a : Resp := { rid := rid, sec := q.sec, discard := d, err := false, why := why }
-            ({ s with resps := s.resps ++ [a], rejected := if d then s.rejected ++ [q.sec] else s.rejected }, [.answer a])
-          | .joinRecent i =>
-            (setAgg s q.replica { g with recent := g.recent.modify i (park · rid q.sec) }, [.parked true (ob.time + i)])
-          | .joinHistoric =>
-            (setAgg s q.replica { g with historic := parkHistoric g.historic rid q.sec }, [.parked false q.sec])
-        | _, _ => (s, [.none])
+    match (dropReq s rid).aggs[q.replica]? with
+    | none => recvRefused (dropReq s rid) rid
+    | some g => if !g.up then recvRefused (dropReq s rid) rid else recvHandle (dropReq s rid) q g
 
 structure TickAcc where
   historic : List Bucket
@@ -549,7 +568,7 @@ def stepBad (s : State) (r : Nat) : State × List Ev :=
   | some g => if g.up then (s, [.answer { rid := 0, sec := 0, discard := true, err := false, why := .undecodable }]) else (s, [.connErr])
 
 def step (s : State) : Op → State × List Ev
-  | .overflow t => ({ s with ag := toHistoric s.ag { sec := t, id := 0, mem := true }, flushed := s.flushed ++ [t] }, [])
+  | .overflow t => ({ addFlushed s t with ag := toHistoric s.ag { sec := t, id := 0, mem := true } }, [])
   | .recent t => stepRecent s t
   | .recv rid => stepRecv s rid
   | .tick r now ok => stepTick s r now ok
